@@ -218,6 +218,66 @@ theorem ensureMonotonic_ub {α : Type} [FOps α] (almost : α → α → Bool) (
     apply ubAt_congr
     simp [ensureMonotonic, fixCounts_ub]
 
+/-- The tail of `BucketQuantile` on exact rationals when there are at least two buckets and the observation
+    count (fixed-up count of the last bucket) is not 0: the fixed-up counts are non-decreasing and the result
+    is the piecewise-linear function `valQ` at the bucket `k` picked by the rank search. -/
+theorem bqTail_main (almost : XR → XR → Bool) (cs : List (Bucket XR)) (U : UbShape cs) (C : NonnegC cs)
+    (hn2 : 2 ≤ cs.length) (hobs : cOf almost cs (cs.length - 1) ≠ 0) :
+    (Num cs.length (uOf cs) (cOf almost cs) ∧ 0 < cOf almost cs (cs.length - 1) ∧
+      ∀ q : Rat, ∃ k, Sel cs.length (cOf almost cs) (q * cOf almost cs (cs.length - 1)) k ∧
+        (bqTail almost (.fin q) cs).quantile
+          = valQ cs.length (uOf cs) (cOf almost cs) (q * cOf almost cs (cs.length - 1)) k) := by
+  have hlen := ensureMonotonic_length almost cs
+  have hn : ¬ cs.length < 2 := by omega
+  -- counts after the fix-up
+  have hmono : ∃ c0, 0 ≤ c0 ∧ MonoFrom c0 (ensureMonotonic almost cs).1 := by
+    cases cs with
+    | nil => simp at hn2
+    | cons b bs =>
+      obtain ⟨c0, hc0, h0⟩ := C b (List.mem_cons_self ..)
+      refine ⟨c0, h0, c0, hc0, Rat.le_refl, ?_⟩
+      have : FinC bs := fun x hx => by
+        obtain ⟨c, hc, _⟩ := C x (List.mem_cons_of_mem _ hx)
+        exact ⟨c, hc⟩
+      simp only [hc0]
+      exact fixCounts_mono almost bs c0 this
+  obtain ⟨c0, hc0, hm⟩ := hmono
+  have hidx := monoFrom_idx _ _ hm
+  rw [hlen] at hidx
+  have hc : ∀ i, i < cs.length → cntAt (ensureMonotonic almost cs).1 i = .fin (cOf almost cs i) := by
+    intro i hi
+    obtain ⟨x, hx, _⟩ := hidx i hi
+    simp [cOf, hx, ratOf]
+  have hu : ∀ i, i + 1 < cs.length → ubAt (ensureMonotonic almost cs).1 i = .fin (uOf cs i) := by
+    intro i hi
+    obtain ⟨x, hx⟩ := U.fin i hi
+    rw [ensureMonotonic_ub]
+    simp [uOf, hx, ratOf]
+  have N : Num cs.length (uOf cs) (cOf almost cs) := by
+    refine ⟨hn2, U.mono, ?_, ?_⟩
+    · intro i j hij hj
+      obtain ⟨x, hx, _, hr⟩ := hidx i (by omega)
+      obtain ⟨y, hy, hxy⟩ := hr j hij hj
+      simp [cOf, hx, hy, ratOf]; exact hxy
+    · obtain ⟨x, hx, hcx, _⟩ := hidx 0 (by omega)
+      simp [cOf, hx, ratOf]; grind
+  have hpos : 0 < cOf almost cs (cs.length - 1) := by
+    have a := N.cmono 0 (cs.length - 1) (by omega) (by omega)
+    have b := N.c0
+    grind
+  refine ⟨N, hpos, ?_⟩
+  intro q
+  have hcl := hc (cs.length - 1) (by omega)
+  have hS := bq_select_sel (ensureMonotonic almost cs).1 (cOf almost cs) (by omega) (by rw [hlen]; exact hc)
+    (q * cOf almost cs (cs.length - 1))
+  rw [hlen] at hS
+  refine ⟨_, hS, ?_⟩
+  have hI := bq_interp_eq (ensureMonotonic almost cs).1 (uOf cs) (cOf almost cs) (by omega)
+    (by rw [hlen]; exact hu) (by rw [hlen]; exact hc) (q * cOf almost cs (cs.length - 1)) _
+    (by rw [hlen]; exact hS.1)
+  rw [hlen] at hI
+  simp [bqTail, hlen, hn, hcl, hobs, hI]
+
 /-- Decomposition of the tail of `BucketQuantile` on exact rationals: either the result is NaN for
     every `q` (fewer than two buckets, or no observations), or the fixed-up counts are non-decreasing
     and the result is the piecewise-linear function `valQ` at the bucket `k` picked by the rank search. -/
@@ -231,59 +291,24 @@ theorem bqTail_decomp (almost : XR → XR → Bool) (cs : List (Bucket XR)) (U :
   by_cases hn : cs.length < 2
   · left; intro q
     simp [bqTail, hlen, hn]
-  · have hn2 : 2 ≤ cs.length := by omega
-    -- counts after the fix-up
-    have hmono : ∃ c0, 0 ≤ c0 ∧ MonoFrom c0 (ensureMonotonic almost cs).1 := by
-      cases cs with
-      | nil => simp at hn2
-      | cons b bs =>
-        obtain ⟨c0, hc0, h0⟩ := C b (List.mem_cons_self ..)
-        refine ⟨c0, h0, c0, hc0, Rat.le_refl, ?_⟩
-        have : FinC bs := fun x hx => by
-          obtain ⟨c, hc, _⟩ := C x (List.mem_cons_of_mem _ hx)
-          exact ⟨c, hc⟩
-        simp only [hc0]
-        exact fixCounts_mono almost bs c0 this
-    obtain ⟨c0, hc0, hm⟩ := hmono
-    have hidx := monoFrom_idx _ _ hm
-    rw [hlen] at hidx
-    have hc : ∀ i, i < cs.length → cntAt (ensureMonotonic almost cs).1 i = .fin (cOf almost cs i) := by
-      intro i hi
-      obtain ⟨x, hx, _⟩ := hidx i hi
-      simp [cOf, hx, ratOf]
-    have hu : ∀ i, i + 1 < cs.length → ubAt (ensureMonotonic almost cs).1 i = .fin (uOf cs i) := by
-      intro i hi
-      obtain ⟨x, hx⟩ := U.fin i hi
-      rw [ensureMonotonic_ub]
-      simp [uOf, hx, ratOf]
-    have N : Num cs.length (uOf cs) (cOf almost cs) := by
-      refine ⟨hn2, U.mono, ?_, ?_⟩
-      · intro i j hij hj
-        obtain ⟨x, hx, _, hr⟩ := hidx i (by omega)
-        obtain ⟨y, hy, hxy⟩ := hr j hij hj
-        simp [cOf, hx, hy, ratOf]; exact hxy
-      · obtain ⟨x, hx, hcx, _⟩ := hidx 0 (by omega)
-        simp [cOf, hx, ratOf]; grind
-    by_cases hobs : cOf almost cs (cs.length - 1) = 0
+  · by_cases hobs : cOf almost cs (cs.length - 1) = 0
     · left; intro q
-      have := hc (cs.length - 1) (by omega)
-      simp [bqTail, hlen, hn, this, hobs]
+      have hfin : ∃ x, cntAt (ensureMonotonic almost cs).1 (cs.length - 1) = .fin x := by
+        cases cs with
+        | nil => simp at hn
+        | cons b bs =>
+          obtain ⟨c0, hc0, _⟩ := C b (List.mem_cons_self ..)
+          have : FinC bs := fun x hx => by
+            obtain ⟨c, hc, _⟩ := C x (List.mem_cons_of_mem _ hx)
+            exact ⟨c, hc⟩
+          have hm : MonoFrom c0 (ensureMonotonic almost (b :: bs)).1 :=
+            ⟨c0, hc0, Rat.le_refl, by simp only [hc0]; exact fixCounts_mono almost bs c0 this⟩
+          obtain ⟨x, hx, _⟩ := monoFrom_idx _ _ hm ((b :: bs).length - 1) (by rw [hlen]; simp)
+          exact ⟨x, hx⟩
+      obtain ⟨x, hx⟩ := hfin
+      have hx0 : x = 0 := by simpa [cOf, hx, ratOf] using hobs
+      simp [bqTail, hlen, hn, hx, hx0]
     · right
-      have hpos : 0 < cOf almost cs (cs.length - 1) := by
-        have a := N.cmono 0 (cs.length - 1) (by omega) (by omega)
-        have b := N.c0
-        grind
-      refine ⟨N, hpos, ?_⟩
-      intro q
-      have hcl := hc (cs.length - 1) (by omega)
-      have hS := bq_select_sel (ensureMonotonic almost cs).1 (cOf almost cs) (by omega) (by rw [hlen]; exact hc)
-        (q * cOf almost cs (cs.length - 1))
-      rw [hlen] at hS
-      refine ⟨_, hS, ?_⟩
-      have hI := bq_interp_eq (ensureMonotonic almost cs).1 (uOf cs) (cOf almost cs) (by omega)
-        (by rw [hlen]; exact hu) (by rw [hlen]; exact hc) (q * cOf almost cs (cs.length - 1)) _
-        (by rw [hlen]; exact hS.1)
-      rw [hlen] at hI
-      simp [bqTail, hlen, hn, hcl, hobs, hI]
+      exact bqTail_main almost cs U C (by omega) hobs
 
 end Prom.Quantile
